@@ -39,7 +39,9 @@ WrapperOps == {"map", "and_then", "filter", "inspect", "filter_map", "find", "fi
 AllOps == WrapperOps \cup {"then", "dot", "or", "chain", "collect", "enumerate", "flatten", "fold", "try_fold", "zip", "unzip"}
 NoOperandOps == {"flatten", "enumerate", "collect", "unzip"}    \* operand may be absent
 OptionNames == {"path", "joiner", "transpose", "lazy"}
-OptionOrder == <<"path", "joiner", "transpose", "lazy">>          \* fixed peek order inside a round
+OptionOrder == <<"path", "joiner", "transpose", "lazy">>
+\* an operator (`<<<`, or `|> g`) written between the operands of a multi-operand operator, behind operand number k
+MidKinds == {"midunwrap1", "midop1", "midunwrap2", "midunwrap3"}          \* fixed peek order inside a round
 
 \* `let <pattern> =` in front of a branch: identifier patterns name the branch, every other pattern is an error
 IdentLets == {"ident", "mut", "ref"}                                  \* let x / let mut x / let ref x
@@ -71,7 +73,7 @@ BalancedFrom(items, i, open) ==
 ValidBranch(b) ==
   /\ ~b.empty
   /\ b.let \in {"none"} \cup IdentLets
-  /\ \A i \in 1 .. Len(b.items) : b.items[i].opnd # "missing"
+  /\ \A i \in 1 .. Len(b.items) : b.items[i].opnd \notin {"missing"} \cup MidKinds
   /\ BalancedFrom(b.items, 1, 0)
 
 Branches(i) == SelectSeq(i.elems, LAMBDA e : e.t = "branch")
@@ -132,6 +134,7 @@ BuilderItem(I, s) ==
            ELSE IF it.mv = "wrap" /\ it.op \notin WrapperOps THEN Fail(s, "syn_error", "This combinator can't be wrapper")
            ELSE IF wc2 < 0 THEN Fail(s, "syn_error", "Unexpected `<<<`")
            ELSE IF it.opnd = "missing" THEN Fail(s, "syn_error", "operand does not parse")
+           ELSE IF it.opnd \in MidKinds THEN Fail(s, "syn_error", "only the last operand may be followed by an operator")
            ELSE [s EXCEPT !.wc = wc2, !.ii = s.ii + 1]
 
 \* JoinOutput::new
@@ -169,6 +172,7 @@ ImplStep(I, s) ==
 
 Plain(op) == It(op, FALSE, "none")
 Missing(op, d) == [op |-> op, deferred |-> d, mv |-> "none", opnd |-> "missing"]
+Mid(op, d, kind) == [op |-> op, deferred |-> d, mv |-> "none", opnd |-> kind]
 Alpha1 ==   \* representative item alphabet for wrapper structure
   {It("map", d, "none") : d \in BOOLEAN} \cup {It("map", d, "wrap") : d \in BOOLEAN}
   \cup {It("unwrap", d, "none") : d \in BOOLEAN} \cup {It("then", FALSE, "wrap"), It("unwrap", FALSE, "wrap")}
@@ -187,6 +191,9 @@ FamOps(dummy) ==
      tail \in {<<>>, <<Plain("map")>>, <<It("unwrap", FALSE, "none")>>, <<Plain("map"), It("unwrap", FALSE, "none")>>}}
   \cup {Inp(Kind(FALSE, FALSE, FALSE), <<>>, <<Br("none", <<Missing(op, d)>> \o tail)>>) :
           op \in AllOps \ NoOperandOps, d \in BOOLEAN, tail \in {<<>>, <<Plain("map")>>}}
+  \cup {Inp(kd, <<>>, <<Br("none", pre \o <<Mid(op, d, k)>> \o tail)>>) :
+          kd \in Kinds8, op \in {"fold", "try_fold", "unzip"}, d \in BOOLEAN, k \in MidKinds,
+          pre \in {<<>>, <<It("map", FALSE, "wrap")>>}, tail \in {<<>>, <<Plain("map")>>}}
 
 \* options: every sequence of up to 5 option names x 8 kinds
 FamOpts(dummy) ==
